@@ -1132,7 +1132,12 @@ static const char *_parse_union_vector(flatcc_json_parser_t *ctx,
         types = flatcc_builder_get_user_frame_ptr(ctx->ctx, h_types);
         buf = union_parser(ctx, buf, end, types[i], &ref);
         if (buf == end) {
-            return buf;
+            /*
+             * The element failed or the input ends inside the array: the
+             * offset vector started above stays open, so this must not
+             * be reported as success (first error wins).
+             */
+            return flatcc_json_parser_set_error(ctx, buf, end, flatcc_json_parser_error_unbalanced_array);
         }
         if (!(pref = flatcc_builder_extend_offset_vector(ctx->ctx, 1))) goto failed;
         *pref = ref;
